@@ -1,13 +1,14 @@
 /-
-  Acceptor of the harness family `gen`: differential validation of the two source-to-Lean translators
-  translate/levels_to_lean.py and translate/hashstream_to_lean.py.
+  Acceptor of the harness family `gen`: differential validation of the three source-to-Lean translators
+  translate/levels_to_lean.py, translate/hashstream_to_lean.py and translate/counterarray_to_lean.py.
 
   Every record of the transcript is an observation of the REAL inline functions of forest_levels.h /
-  defines.h / hash_stream.h as compiled into the harness; it is recomputed here with the GENERATED
-  definitions of `MeddlyModel/Gen/Levels.lean` and `MeddlyModel/Gen/HashStream.lean` and compared.
-  (It deliberately imports ONLY the generated files, not Props/Levels.lean / Props/HashStreamGen.lean nor the
-  hand-written Core/HashStream.lean: when a header changes so that the proofs break, this differential run
-  still works and tells whether the translation is faithful.)
+  defines.h / hash_stream.h / arrays.h (and of arrays.cc in the library) as compiled into the harness; it is
+  recomputed here with the GENERATED definitions of `MeddlyModel/Gen/Levels.lean`,
+  `MeddlyModel/Gen/HashStream.lean` and `MeddlyModel/Gen/CounterArray.lean` and compared.
+  (It deliberately imports ONLY the generated files, not Props/Levels.lean / Props/HashStreamGen.lean /
+  Props/CounterArrayGen.lean nor the hand-written models: when a header changes so that the proofs break,
+  this differential run still works and tells whether the translation is faithful.)
 
   Grammar (one record per line; all numbers in decimal, levels signed, words unsigned 32 bit):
 
@@ -22,6 +23,13 @@
                                  start(init) (`-`: start()); one call per character of <spec>
                                  (`1` push(a), `2` push(a,b), `3` push(a,b,c); `.` = no call); finish()
 
+    gc new <0|1>                 a fresh counter_array (1: constructed with an array_watcher that records its calls)
+    gc <op> <args> -> <result> <entry_bits>
+                                 op: expand n | shrink n | get i | swap i j | inc i | dec i | izbi i | ipad i |
+                                     rep n inc|dec|izbi|ipad i   (n calls; result = sum of the n results)
+                                 replayed with `Gen.CounterArray.step`; entry_bits with `Gen.CounterArray.entry_bits`
+    gc watched -> e:<old>:<new> s:<old>:<new> ... | -      the watcher's calls so far = the ghost member `watched`
+
   A level record whose arguments violate the generated `<fn>_defined` predicate (the model says the C++ call
   has undefined behaviour) is reported as kind=gen-lv-undefined; a hash record on which a generated function
   returns `.error .ub` as `expected=ub`, `.error .thrown` as `expected=throw <code>`.
@@ -29,6 +37,7 @@
 import MeddlyModel.Basic.Report
 import MeddlyModel.Gen.Levels
 import MeddlyModel.Gen.HashStream
+import MeddlyModel.Gen.CounterArray
 
 namespace Meddly.GenAccept
 
@@ -121,9 +130,55 @@ def expMix (which : String) (a b c : String) : Option String := do
   let r ← if which == "mix" then some (mix av bv cv) else if which == "final_mix" then some (final_mix av bv cv) else none
   some s!"{showW r.1} {showW r.2.1} {showW r.2.2}"
 
+/-! ### counter_array: the generated step function -/
+
+namespace CA
+open Gen.CounterArray
+
+/-- contents of freshly allocated memory in the replay: never 0, different per allocation (the theorems of
+    Props/CounterArrayGen.lean hold for every choice; a missing memset / copy shows up as a wrong `get`) -/
+def junk : List Nat → Nat → Nat := fun t k => 165 + 31 * t.length + 7 * k
+
+def errName : Err → String
+  | .ub => "ub"
+  | .thrown => "thrown"
+  | .unmodelled => "unmodelled"
+
+def kind? : String → Option (Nat → Op)
+  | "inc" => some Op.increment
+  | "dec" => some Op.decrement
+  | "izbi" => some Op.isZeroBeforeIncrement
+  | "ipad" => some Op.isPositiveAfterDecrement
+  | _ => none
+
+/-- `n` calls of `op`, summing the results -/
+def repeatOp (op : Op) : Nat → State → Nat → Except Err (State × Nat)
+  | 0, g, acc => .ok (g, acc)
+  | n + 1, g, acc =>
+    match step junk g op with
+    | .error e => .error e
+    | .ok (g', r) => repeatOp op n g' (acc + r)
+
+/-- the calls of one record; `none`: malformed -/
+def exec (g : State) : List String → Option (Except Err (State × Nat))
+  | ["expand", n] => n.toNat?.map fun n => step junk g (.expand n)
+  | ["shrink", n] => n.toNat?.map fun n => step junk g (.shrink n)
+  | ["get", i] => i.toNat?.map fun i => step junk g (.get i)
+  | ["swap", i, j] => i.toNat?.bind fun i => j.toNat?.map fun j => step junk g (.swap i j)
+  | ["rep", n, k, i] => n.toNat?.bind fun n => (kind? k).bind fun mk => i.toNat?.map fun i => repeatOp (mk i) n g 0
+  | [k, i] => (kind? k).bind fun mk => i.toNat?.map fun i => step junk g (mk i)
+  | _ => none
+
+def showWatched (l : List (Bool × Nat × Nat)) : String :=
+  if l.isEmpty then "-" else
+    " ".intercalate (l.map fun (e, o, n) => (if e then "e:" else "s:") ++ toString o ++ ":" ++ toString n)
+
+end CA
+
 /-! ### the line loop -/
 
 structure St where
+  ca : Option Gen.CounterArray.State := none      -- the counter_array of the current `gc new`
   rep : Report := {}
   line : Nat := 0
   cur : Option String := none      -- current case
@@ -161,6 +216,24 @@ def splitArrow (toks : List String) : Option (List String × String) :=
     | t :: rest => if t == "->" then some (acc.reverse, joinSp rest) else go (t :: acc) rest
   go [] toks
 
+def St.checkCa (s : St) (args : List String) (got : String) : St :=
+  let input := joinSp args
+  match s.ca with
+  | none => s.diff "gen-gc" s!"input=[{input}] record before `gc new`"
+  | some g =>
+    if args == ["watched"] then
+      { s with rep := s.rep.bump "gc.watched" }.check "gen-gc-watch" input (some (CA.showWatched g.watched)) got
+    else
+      match CA.exec g args with
+      | none => s.diff "gen-gc" s!"malformed-record args=[{input}] got=[{got}]"
+      | some (.error e) =>
+          { s with rep := s.rep.bump "gc.calls" }.check "gen-gc" input (some (CA.errName e)) got
+      | some (.ok (g', r)) =>
+          let bits := match Gen.CounterArray.entry_bits g' with
+            | .ok b => toString b
+            | .error e => CA.errName e
+          { s with ca := some g', rep := s.rep.bump "gc.calls" }.check "gen-gc" input (some s!"{r} {bits}") got
+
 def stepRecord (s : St) (kind : String) (args : List String) (got : String) : St :=
   let s := if s.cur.isNone then s.diff kind "record outside case…endcase" else s
   let input := joinSp args
@@ -170,6 +243,7 @@ def stepRecord (s : St) (kind : String) (args : List String) (got : String) : St
       s.checkLevel fn input ((parseInt32? k1).bind fun a => (parseInt32? k2).bind fun b => binaryLevel? fn a b) got
   | "hr", [x, k] => { s with rep := s.rep.bump "hr" }.check "gen-hr" input (expRot x k) got
   | "hm", [w, a, b, c] => { s with rep := s.rep.bump ("hm." ++ w) }.check "gen-hm" input (expMix w a b c) got
+  | "gc", _ => s.checkCa args got
   | "hs", init :: spec :: ws =>
       let s := { s with rep := s.rep.bump (if init == "-" then "hs.start0" else "hs.start") }
       s.check "gen-hs" input (expStream init spec ws) got
@@ -198,7 +272,15 @@ def step (s : St) (ln : String) : St :=
         let s := { s with rep := s.rep.bump "cases" }
         { s with cur := some (rest.headD "?") }
     | "endcase" =>
-        if s.cur.isNone then s.diff kind "endcase without case" else { s with cur := none }
+        if s.cur.isNone then s.diff kind "endcase without case" else { s with cur := none, ca := none }
+    | "gc" =>
+        if rest == ["new", "0"] ∨ rest == ["new", "1"] then
+          let s := if s.cur.isNone then s.diff kind "record outside case…endcase" else s
+          { s with ca := some (Gen.CounterArray.init (rest == ["new", "1"])), rep := s.rep.bump "gc.new" }
+        else
+          match splitArrow rest with
+          | some (args, got) => stepRecord s kind args got
+          | none => s.diff kind s!"record without `->`: {ln}"
     | _ =>
       if kind ∈ ["lv", "hr", "hm", "hs"] then
         match splitArrow rest with
